@@ -2,7 +2,7 @@
 import numpy as np
 import symtorch
 from vlib import core, lincheck
-from harness import dtlib as DT
+from harness import dtlib as DT, dwtlib as D
 
 SIZES_Q = [(2, 2), (3, 5), (4, 4), (6, 8), (5, 7), (8, 8), (10, 12), (9, 12)]
 
@@ -36,6 +36,9 @@ def configs(tier, seed):
         # filters given as tuples of arrays (the documented alternative to names)
         out.append(dict(biort='near_sym_b', qshift='qshift_b', J=2, H=6, W=8, B=1, C=1, as_tuples=True))
         out.append(dict(biort='legall', qshift='qshift_06', J=3, H=5, W=7, B=1, C=1, as_tuples=True))
+        for ctx in D.CTXS:
+            out.append(dict(biort='near_sym_a', qshift='qshift_a', J=2, H=6, W=8, B=1, C=2, ctx=ctx))
+            out.append(dict(biort='near_sym_b', qshift='qshift_b', J=2, H=5, W=6, B=2, C=1, ctx=ctx))
     else:
         sizes = [(h, w) for h in range(2, 13) for w in range(2, 13)]
         for i, (b, q) in enumerate(DT.ALL_PAIRS):
@@ -49,6 +52,9 @@ def configs(tier, seed):
             out.append(dict(biort=b, qshift=q, J=3, H=16, W=16, B=1, C=1))
             out.append(dict(biort=b, qshift=q, J=4, H=16, W=16, B=1, C=1))
         out.append(dict(biort='near_sym_b', qshift='qshift_d', J=2, H=7, W=6, B=2, C=3))
+        for ctx in D.CTXS:
+            for (b, q) in DT.QUICK_PAIRS[:3]:
+                out.append(dict(biort=b, qshift=q, J=3, H=10, W=12, B=1, C=2, ctx=ctx))
     return out
 
 
@@ -62,7 +68,7 @@ def case(cfg):
             h0o, g0o, h1o, g1o = RC.biort(b)
             h0a, h0b, g0a, g0b, h1a, h1b, g1a, g1b = RC.qshift(q)
             b, q = (h0o, h1o), (h0a, h0b, h1a, h1b)
-        yl, yh = pw.DTCWTForward(biort=b, qshift=q, J=cfg['J'])(ts[0])
+        yl, yh = D.call_ctx(pw, cfg, lambda a: pw.DTCWTForward(biort=b, qshift=q, J=cfg['J'])(a[0]), ts)
         return [('yl', yl)] + [('yh%d' % (j + 1), h) for j, h in enumerate(yh)]
 
     def ref(arrs):
